@@ -851,6 +851,10 @@ class Client:
                     return []
                 break
 
+            if not response.information:
+                # No progress is possible
+                break
+
             for attribute_handle, attribute_uuid in response.information:
                 if attribute_handle < starting_handle:
                     # Something's not right
